@@ -665,6 +665,22 @@ class GenB:
             q = self.emit({"op": "q_new", "m": mspec, "u": self.unit_expr(src), "how": "mul"})
             self.emit({"op": "convert", "q": q, "u": self.unit_expr(dst)})
             self.queries.append(self.ops[-1])
+        # the same pair inside a compound of another dimension (t/u -> partner/u): plans memoised
+        # for *that* dimension go stale too
+        cross = None
+        others = [u for u in self.unit_ref if self.model.base_dim[u] != self.model.base_dim[t]
+                  and u not in self.unsized and u not in self.extreme]
+        if probe and others and rng.random() < 0.7:
+            u, k = rng.choice(sorted(others)), rng.choice([-1, -1, 1, -2])
+            c_src = ((), M.f_norm([(t, 1), (u, k)]))
+            c_dst = (prefix, M.f_norm(list(partner_nf[1]) + [(u, k)]))
+            if len(c_dst[1]) <= 3 and all(abs(e) <= 3 for _, e in c_dst[1]) and \
+                    not pair_class(self.model, c_src, c_dst):
+                cross = (c_src, c_dst)
+                mspec, _ = self.magnitude()
+                q = self.emit({"op": "q_new", "m": mspec, "u": self.unit_expr(c_src), "how": "mul"})
+                self.emit({"op": "convert", "q": q, "u": self.unit_expr(c_dst)})
+                self.queries.append(self.ops[-1])
         self.sizes[t] = new
         ratio = self.size_nf(a_nf) / self.size_nf(expr_nf)
         m = ["int", str(ratio.numerator)] if ratio.denominator == 1 and abs(ratio.numerator) < 10 ** 12 \
@@ -683,6 +699,12 @@ class GenB:
                     r = self.emit({"op": "convert", "q": q, "u": self.unit_expr(dst)})
                     self.qtys.append((r, dst))
                     self.queries.append(self.ops[-1])
+        if cross:
+            mspec, _ = self.magnitude()
+            q = self.emit({"op": "q_new", "m": mspec, "u": self.unit_expr(cross[0]), "how": "mul"})
+            r = self.emit({"op": "convert", "q": q, "u": self.unit_expr(cross[1])})
+            self.qtys.append((r, cross[1]))
+            self.queries.append(self.ops[-1])
 
     def g_evict(self):
         from sim.faults import CACHE_NAMES
